@@ -147,15 +147,41 @@ ShapeOK(o) ==
     /\ Len(o.treePred) = o.trees
     /\ \A t \in 1..o.trees : Len(o.treePred[t]) = o.nAll
     /\ Len(o.pred) = o.nAll
-    /\ o.hasMask => /\ Len(o.mask) = o.trees
-                    /\ \A t \in 1..o.trees : Len(o.mask[t]) = o.nTrain
 
-\* keep_samples = true promises out-of-bag predictions: the bootstrap membership
-\* is retained and predict_oob on the training matrix returns one value per row
-OobAvailable(o) ==
-    o.keep => /\ o.hasMask
-              /\ o.oobStatus = "ok"
+(***************************************************************************)
+(* keep_samples = true (resp. a forest that was handed its samples[] table *)
+(* through the public Deserialize) promises out-of-bag predictions.  Two    *)
+(* separate clauses:                                                       *)
+(*  OobAnswers         predict_oob on the training matrix returns one      *)
+(*                     value per training row (it does not err or panic).  *)
+(*  SamplesObservable  the forest exposes which rows each tree's bootstrap *)
+(*                     sample contained -- one membership row per member   *)
+(*                     tree, one bit per training row -- through the       *)
+(*                     channel the property names: samples[] of the serde  *)
+(*                     dump.  Without it neither "aggregates only the      *)
+(*                     trees whose bootstrap sample did not contain row i" *)
+(*                     nor "every bootstrap sample contains every class"   *)
+(*                     (Stratified, InBagFit) can be observed; a forest    *)
+(*                     that stops exposing it fails here, as a property    *)
+(*                     clause, not as a defect of the tooling.             *)
+(***************************************************************************)
+OobAnswers(o) ==
+    o.keep => /\ o.oobStatus = "ok"
               /\ Len(o.oob) = o.nTrain /\ Len(o.oobFin) = o.nTrain
+
+SamplesObservable(o) ==
+    (o.keep \/ o.hasMask) => /\ o.hasMask
+                              /\ Len(o.mask) = o.trees
+                              /\ \A t \in 1..o.trees : Len(o.mask[t]) = o.nTrain
+
+\* first failing clause among those that must hold before anything else is looked at
+FirstFailBasic(o) ==
+    IF ~CountOK(o) THEN "CountOK"
+    ELSE IF ~Usable(o) THEN "Usable"
+    ELSE IF ~ShapeOK(o) THEN "ShapeOK"
+    ELSE IF ~OobAnswers(o) THEN "OobAnswers"
+    ELSE IF ~SamplesObservable(o) THEN "SamplesObservable"
+    ELSE ""
 
 \* "identical forests give identical predictions": a fortiori one forest asked twice
 \* gives the same answer, bit for bit (a vote whose ties are broken by something that is
@@ -277,14 +303,14 @@ FirstFailReg(o, fitted, unlimitedDistinct) ==
     ELSE IF fitted /\ unlimitedDistinct /\ ~InBagFit(o) THEN "InBagFit"
     ELSE ""
 
-FirstFail(o, fitted, unlimitedDistinct) ==
-    IF ~CountOK(o) THEN "CountOK"
-    ELSE IF ~Usable(o) THEN "Usable"
-    ELSE IF ~ShapeOK(o) THEN "ShapeOK"
-    ELSE IF ~OobAvailable(o) THEN "OobAvailable"
+FirstFailFrom(o, fitted, unlimitedDistinct, basic) ==
+    IF basic # "" THEN basic
     ELSE IF ~PredictStable(o) THEN "PredictStable"
     ELSE IF o.kind = "cls" THEN FirstFailCls(o, fitted, unlimitedDistinct)
     ELSE FirstFailReg(o, fitted, unlimitedDistinct)
+
+FirstFail(o, fitted, unlimitedDistinct) ==
+    FirstFailFrom(o, fitted, unlimitedDistinct, FirstFailBasic(o))
 
 ForestOK(o, fitted, unlimitedDistinct) == FirstFail(o, fitted, unlimitedDistinct) = ""
 
